@@ -30,6 +30,7 @@ from pycel.excelutil import (
     VALUE_ERROR,
 )
 from pycel.lib.function_helpers import (
+    calling_name_space,
     excel_helper,
 )
 
@@ -255,7 +256,7 @@ def index(array, row_num, col_num=None):
 
     if is_address(array[0][0]):
         assert len({a for a in flatten(array)}) == 1
-        _C_ = index.excel_func_meta['name_space']['_C_']
+        _C_ = calling_name_space(index)['_C_']
         ref_addr = array[0][0].address_at_offset
     else:
         ref_addr = None
